@@ -409,6 +409,114 @@ def sendall_in_send_lock():
     return 'bool', cbool(ok)
 
 
+
+def _sr_parts():
+    """send_reply: (function, the assignment outdata = encode_msg_frame(*data), the with statement, the sendall call)"""
+    f = find_func(_tcp(), 'send_reply')
+    assigns = [a for a in f.body if isinstance(a, ast.Assign) and nows(a) == 'outdata=encode_msg_frame(*data)']
+    withs = [w for w in f.body if isinstance(w, ast.With) and len(w.items) == 1
+             and is_self_attr(w.items[0].context_expr, 'send_lock') and w.items[0].optional_vars is None]
+    sends = [c for c in walk_type(f, ast.Call) if nows(c) == 'self.request.sendall(outdata)']
+    if len(assigns) != 1 or len(withs) != 1 or len(sends) != 1:
+        raise Shape('send_reply: expected one assignment of the encoded frame to outdata, one top-level `with self.send_lock:` and one sendall')
+    return f, assigns[0], withs[0], sends[0]
+
+
+def encode_outside_lock():
+    """send_reply computes the frame BEFORE entering `with self.send_lock` (top-level statement preceding the with, not
+    inside it), nothing but the guard on empty data precedes it, outdata is assigned nowhere else and the with block is
+    the last statement: encode errors are raised while the lock is not held, and no code runs after the lock is released"""
+    f, asg, w, send = _sr_parts()
+    body = [n for n in f.body if not (isinstance(n, ast.Expr) and isinstance(n.value, ast.Constant))]
+    ok = (len(body) == 3 and isinstance(body[0], ast.If) and nows(body[0].test) == 'notdata'
+          and isinstance(body[0].body[-1], ast.Return) and not body[0].orelse
+          and body[1] is asg and body[2] is w
+          and not [c for c in walk_type(w, ast.Call) if 'encode_msg_frame' in nows(c.func)]
+          and len([n for n in walk_type(f, ast.Name) if n.id == 'outdata' and isinstance(n.ctx, ast.Store)]) == 1)
+    return 'bool', cbool(ok)
+
+
+def send_failure_caught():
+    """inside the with block: `if self.running:` around a try whose only statement is the sendall; the handlers catch
+    (BrokenPipeError, IOError) and Exception, every handler sets self.running = False and neither raises nor returns;
+    no else/finally; so a failing sendall leaves the with block normally (lock released) and raises nothing"""
+    f, asg, w, send = _sr_parts()
+    ok = False
+    if len(w.body) == 1 and isinstance(w.body[0], ast.If) and nows(w.body[0].test) == 'self.running' \
+            and not w.body[0].orelse and len(w.body[0].body) == 1 and isinstance(w.body[0].body[0], ast.Try):
+        t = w.body[0].body[0]
+        types = [nows(h.type) if h.type is not None else None for h in t.handlers]
+        ok = (len(t.body) == 1 and isinstance(t.body[0], ast.Expr) and t.body[0].value is send
+              and not t.orelse and not t.finalbody
+              and 'Exception' in types and types[-1] == 'Exception'
+              and all(any(nows(a) == 'self.running=False' for a in walk_type(h, ast.Assign)) for h in t.handlers)
+              and not any(walk_type(h, (ast.Raise, ast.Return)) for h in t.handlers)
+              and not walk_type(f, (ast.For, ast.While)))
+    return 'bool', cbool(ok)
+
+
+def socket_written_only_by_send_reply():
+    """in RequestHandler and TCPRequestHandler the socket object self.request is used only as
+    self.request.<settimeout|recv|shutdown|close|sendall>(...), sendall only in send_reply; it is never passed on or
+    aliased (the only other occurrence is the assignment in __init__)"""
+    ok = True
+    n_send = 0
+    for cls in (find_class(parse(F_HDL), 'RequestHandler'), _tcp()):
+        parents = {}
+        for node in ast.walk(cls):
+            for ch in ast.iter_child_nodes(node):
+                parents[ch] = node
+        for node in ast.walk(cls):
+            if is_self_attr(node, 'request'):
+                par = parents.get(node)
+                if isinstance(node.ctx, ast.Store):
+                    fn = par
+                    while fn is not None and not isinstance(fn, ast.FunctionDef):
+                        fn = parents.get(fn)
+                    if fn is None or fn.name != '__init__':
+                        ok = False
+                    continue
+                if not (isinstance(par, ast.Attribute) and par.value is node and isinstance(parents.get(par), ast.Call)
+                        and parents[par].func is par
+                        and par.attr in ('settimeout', 'recv', 'shutdown', 'close', 'sendall')):
+                    ok = False
+                    continue
+                if par.attr == 'sendall':
+                    n_send += 1
+                    fn = par
+                    while fn is not None and not isinstance(fn, ast.FunctionDef):
+                        fn = parents.get(fn)
+                    if fn is None or fn.name != 'send_reply':
+                        ok = False
+    return 'bool', cbool(ok and n_send == 1)
+
+
+def send_lock_per_connection():
+    """RequestHandler.setup creates one plain threading.Lock per connection object and sets running = True; send_lock is
+    assigned nowhere else; running is assigned only in setup (True) and in send_reply (False, inside the with block)"""
+    hdl = find_class(parse(F_HDL), 'RequestHandler')
+    setup = find_func(hdl, 'setup')
+    ok = (any(nows(a) == 'self.send_lock=threading.Lock()' for a in setup.body if isinstance(a, ast.Assign))
+          and any(nows(a) == 'self.running=True' for a in setup.body if isinstance(a, ast.Assign)))
+    f, asg, w, send = _sr_parts()
+    in_with = set(id(a) for a in walk_type(w, ast.Assign))
+    for cls in (hdl, _tcp()):
+        for fn in [n for n in cls.body if isinstance(n, ast.FunctionDef)]:
+            for a in walk_type(fn, (ast.Assign, ast.AugAssign, ast.AnnAssign)):
+                targets = a.targets if isinstance(a, ast.Assign) else [a.target]
+                for t in targets:
+                    for x in ast.walk(t):
+                        if is_self_attr(x, 'send_lock') and not (cls is hdl and fn.name == 'setup'):
+                            ok = False
+                        if is_self_attr(x, 'running'):
+                            if cls is hdl and fn.name == 'setup' and nows(a) == 'self.running=True':
+                                continue
+                            if fn.name == 'send_reply' and id(a) in in_with and nows(a) == 'self.running=False':
+                                continue
+                            ok = False
+    return 'bool', cbool(ok)
+
+
 # ------------------------------------------------------------------ interface/handler.py: the request loop
 def _handle():
     return find_func(find_class(parse(F_HDL), 'RequestHandler'), 'handle')
@@ -504,6 +612,7 @@ FACTS = [IDENTREQUEST, IDENTREPLY, ERRORPREFIX, HELPREQUEST, HELPREPLY, request2
          handler_table, ident_alias, internal_prefix, internal_names, internal_error_class, dispatch_by_getattr, unhandled_error_class, handle_request_under_lock,
          error_names, EOL, get_msg_splits_first_eol, decode_split_max, decode_tail_ok, encode_shape_ok, dumps_ascii_only,
          MESSAGE_READ_SIZE, ingest_appends, next_message_shape_ok, sendall_in_send_lock,
+         encode_outside_lock, send_failure_caught, socket_written_only_by_send_reply, send_lock_per_connection,
          decode_error_name, generic_error_name, secop_error_uses_name, error_echo_fields, error_split_max,
          help_before_dispatch, details_cleared_unless_detailed, one_send_per_result]
 
